@@ -146,7 +146,22 @@ fn in_process(path: &Path) -> Result<(String, usize), String> {
 /// (4) text of the size sweep: a comment of `pad` ASCII letters ending in one non-ASCII character,
 /// followed on the same line by a statement with an undeclared variable.
 fn sweep_text(ch: char, pad: usize) -> String {
-    format!("FUNCTION_BLOCK Fb\nVAR a : INT; END_VAR\n(* {}{} *) b := 1;\nEND_FUNCTION_BLOCK\n", "x".repeat(pad), ch)
+    sweep_text_in(ch, pad, 0)
+}
+
+/// Contexts of the size sweep: 0 = a closed comment followed by a fault (the position of the fault is
+/// known); 1 = a comment that is never closed; 2 = a string that is never closed; 3 = the character
+/// directly after an identifier of `pad` letters (text that is not a token). In 1-3 the lexer reports
+/// the unmatched text; the verdict must be the same in every encoding and nothing may crash.
+pub const SWEEP_CONTEXTS: [&str; 4] = ["closed-comment", "unterminated-comment", "unterminated-string", "after-identifier"];
+fn sweep_text_in(ch: char, pad: usize, context: usize) -> String {
+    let x = "x".repeat(pad);
+    match context {
+        1 => format!("FUNCTION_BLOCK Fb\nVAR a : INT; END_VAR\n(* {}{} b := 1;\nEND_FUNCTION_BLOCK\n", x, ch),
+        2 => format!("FUNCTION_BLOCK Fb\nVAR s : STRING; END_VAR\ns := '{}{} ;\nEND_FUNCTION_BLOCK\n", x, ch),
+        3 => format!("FUNCTION_BLOCK Fb\nVAR a : INT; END_VAR\na := y{}{} ;\nEND_FUNCTION_BLOCK\n", x, ch),
+        _ => format!("FUNCTION_BLOCK Fb\nVAR a : INT; END_VAR\n(* {}{} *) b := 1;\nEND_FUNCTION_BLOCK\n", x, ch),
+    }
 }
 
 /// In-process observation of one stored file: (verdict, [(code, line, column in characters)]).
@@ -158,6 +173,10 @@ fn observe_file(path: &Path) -> Result<(bool, Vec<(String, usize, usize)>), Stri
             return (false, vec![(format!("unreadable:{}", d.code), 0usize, 0usize)]);
         }
         let text = p.get(&fid).map(|s| s.as_string().to_string()).unwrap_or_default();
+        let (_tokens, token_diags) = p.tokenize(&fid);
+        if p.semantic().is_ok() != token_diags.is_empty() && p.semantic().is_ok() {
+            return (false, vec![("tokenize-reports-errors-but-check-is-ok".to_string(), 0, 0)]);
+        }
         match p.semantic() {
             Ok(()) => (true, vec![]),
             Err(ds) => {
@@ -211,7 +230,7 @@ pub fn run(ctx: &mut Ctx) {
     // quick = the former thorough tier; thorough = a longer size sweep and all 2-byte continuations of every BOM
     let deep = ctx.tier.thorough();
     let thorough = true;
-    ctx.rule = "(1) 12 programs with non-ASCII text in comments and strings (valid and with a fault after the non-ASCII text, same line and later line) x 5 encodings through `ironplcc check` and `tokenize`; (2) every byte 0x00-0xFF x 4 contexts through the binary and in-process; (3) all 1-byte files (and all 2-byte files; thorough: all 2-byte continuations of every BOM) in-process and BOM-prefixed ones through the binary; (4) size sweep: a 2-, 3- or 4-byte character at every offset of a file growing to 4.3 k (thorough 20 k) characters and straddling every power of two from 4 KiB to 64 KiB in each encoding, in-process and a subset through the binary; distinct = distinct file contents".into();
+    ctx.rule = "(1) 12 programs with non-ASCII text in comments and strings (valid and with a fault after the non-ASCII text, same line and later line) x 5 encodings through `ironplcc check` and `tokenize`; (2) every byte 0x00-0xFF x 4 contexts through the binary and in-process; (3) all 1-byte files (and all 2-byte files; thorough: all 2-byte continuations of every BOM) in-process and BOM-prefixed ones through the binary; (4) size sweep: a 2-, 3- or 4-byte character at every offset of a file growing to 4.3 k (thorough 20 k) characters and straddling every power of two from 4 KiB to 64 KiB in each encoding, in-process and a subset through the binary, the character also at the end of a never-closed comment, a never-closed string and directly after an identifier (pad 0..600); distinct = distinct file contents".into();
     ctx.assumptions.push("all non-ASCII characters used in (1) exist in Windows-1252 and their Windows-1252 bytes are not valid UTF-8 (asserted), so the intended decoding is unambiguous".into());
     ctx.assumptions.push("positions are compared as printed by the binary (line:column of the first location block)".into());
     ctx.bounds.insert("encodings".into(), json!(ENCODINGS));
@@ -505,10 +524,15 @@ pub fn run(ctx: &mut Ctx) {
     // every power-of-two offset up to 64 KiB in every encoding (block-wise reading / sniffing must not show)
     let limit = if deep { 20000 } else { 4300 };
     let chars: [(char, &str); 3] = [('\u{e9}', "two-byte"), ('\u{20ac}', "three-byte"), ('\u{1F600}', "four-byte")];
-    let mut sweep: BTreeSet<(usize, usize)> = BTreeSet::new(); // (character index, pad)
+    let mut sweep: BTreeSet<(usize, usize, usize)> = BTreeSet::new(); // (character index, pad, context)
     for (ci, _) in chars.iter().enumerate() {
         for pad in 0..limit {
-            sweep.insert((ci, pad));
+            sweep.insert((ci, pad, 0));
+        }
+        for context in 1..SWEEP_CONTEXTS.len() {
+            for pad in 0..(if deep { 2200 } else { 600 }) {
+                sweep.insert((ci, pad, context));
+            }
         }
     }
     let mut boundaries = vec![];
@@ -528,21 +552,21 @@ pub fn run(ctx: &mut Ctx) {
                 // every start offset that makes the character straddle the boundary, plus the aligned neighbours
                 for start in (b + 1 - w)..=*b {
                     if start >= off0 && (start - off0) % unit == 0 {
-                        sweep.insert((ci, (start - off0) / unit));
+                        sweep.insert((ci, (start - off0) / unit, 0));
                     }
                 }
             }
         }
     }
-    let sweep: Vec<(usize, usize)> = sweep.into_iter().collect();
+    let sweep: Vec<(usize, usize, usize)> = sweep.into_iter().collect();
     ctx.bounds.insert("size_sweep".into(), json!(format!("{} texts: 3 character widths x every pad 0..{} + characters straddling 4096…65536 in each encoding; each text in every encoding that can hold it", sweep.len(), limit)));
     let sweep_dir = scratch.sub("sweep");
-    let sweep_results: Vec<(usize, usize, Vec<(&str, Result<(bool, Vec<(String, usize, usize)>), String>)>)> = sweep
+    let sweep_results: Vec<(usize, usize, usize, Vec<(&str, Result<(bool, Vec<(String, usize, usize)>), String>)>)> = sweep
         .par_iter()
         .enumerate()
-        .map(|(n, (ci, pad))| {
+        .map(|(n, (ci, pad, context))| {
             let ch = chars[*ci].0;
-            let text = sweep_text(ch, *pad);
+            let text = sweep_text_in(ch, *pad, *context);
             let mut per = vec![];
             for enc in ENCODINGS {
                 if enc == "windows-1252" && cp1252_byte(ch).is_none() {
@@ -553,27 +577,34 @@ pub fn run(ctx: &mut Ctx) {
                 per.push((enc, observe_file(&path)));
                 let _ = std::fs::remove_file(&path);
             }
-            (*ci, *pad, per)
+            (*ci, *pad, *context, per)
         })
         .collect();
     let expected_col = |pad: usize| 3 + pad + 1 + 3 + 1 + 1; // 1-based column of b after "(* " pad ch " *)" " "
-    for (ci, pad, per) in &sweep_results {
+    for (ci, pad, context, per) in &sweep_results {
         let base = &per[0].1;
+        let cname = if *context == 0 { String::new() } else { format!("/{}", SWEEP_CONTEXTS[*context]) };
         for (enc, r) in per {
             ctx.evaluations += 1;
             ctx.transitions += 1;
-            let replay = json!({"mode":"sweep","character":chars[*ci].0.to_string(),"pad":pad,"encoding":enc});
+            let replay = json!({"mode":"sweep","character":chars[*ci].0.to_string(),"pad":pad,"encoding":enc,"context":context});
             match r {
-                Err(e) => ctx.fail(&format!("size-sweep/crash/{}/{}", enc, chars[*ci].1), &format!("pad {}: {}", pad, e), replay),
+                Err(e) => ctx.fail(&format!("size-sweep/crash/{}/{}{}", enc, chars[*ci].1, cname), &format!("pad {}: {}", pad, e), replay),
                 Ok(o) => {
                     if Ok(o) != base.as_ref() {
                         let (off, w) = sweep_offset(chars[*ci].0, *pad, enc);
                         ctx.fail(
-                            &format!("size-sweep/result-differs-from-utf8/{}/{}", enc, chars[*ci].1),
+                            &format!("size-sweep/result-differs-from-utf8/{}/{}{}", enc, chars[*ci].1, cname),
                             &format!("the {} character at byte offset {}..{} of the {} file (pad {}): utf8 gives {:?}, {} gives {:?}", chars[*ci].1, off, off + w, enc, pad, base, enc, o),
                             replay,
                         );
-                    } else if *enc == "utf8" && *o != (false, vec![("P0015".to_string(), 3, expected_col(*pad))]) {
+                    } else if *enc == "utf8" && *context != 0 && o.0 {
+                        ctx.fail(
+                            &format!("size-sweep/unmatched-text-accepted/{}{}", chars[*ci].1, cname),
+                            &format!("pad {}: the text is reported OK", pad),
+                            replay,
+                        );
+                    } else if *enc == "utf8" && *context == 0 && *o != (false, vec![("P0015".to_string(), 3, expected_col(*pad))]) {
                         ctx.fail(
                             &format!("size-sweep/unexpected-result/{}", chars[*ci].1),
                             &format!("pad {}: expected P0015 at 3:{}, observed {:?}", pad, expected_col(*pad), o),
@@ -583,17 +614,17 @@ pub fn run(ctx: &mut Ctx) {
                 }
             }
         }
-        ctx.distinct(&format!("sweep|{}|{}", ci, pad));
+        ctx.distinct(&format!("sweep|{}|{}|{}", ci, pad, context));
     }
     ctx.outcome_n("size sweep text: same result in every encoding", sweep_results.len() as u64);
     // the straddling texts and a coarse subset of the sweep through the binary
-    let bin_sweep: Vec<&(usize, usize)> = sweep.iter().filter(|(_, pad)| *pad >= limit || (*pad >= 900 && *pad <= 1100 && pad % 7 == 0) || (1022 - 44..=1026 - 40).contains(pad) || (2046 - 44..=2050 - 40).contains(pad)).collect();
-    let bin_sweep_results: Vec<(usize, usize, Vec<(&str, Outcome)>)> = bin_sweep
+    let bin_sweep: Vec<&(usize, usize, usize)> = sweep.iter().filter(|(_, pad, context)| (*context != 0 && (100..160).contains(pad)) || *context == 0 && (*pad >= limit || (*pad >= 900 && *pad <= 1100 && pad % 7 == 0) || (1022 - 44..=1026 - 40).contains(pad) || (2046 - 44..=2050 - 40).contains(pad))).collect();
+    let bin_sweep_results: Vec<(usize, usize, usize, Vec<(&str, Outcome)>)> = bin_sweep
         .par_iter()
         .enumerate()
-        .map(|(n, (ci, pad))| {
+        .map(|(n, (ci, pad, context))| {
             let ch = chars[*ci].0;
-            let text = sweep_text(ch, *pad);
+            let text = sweep_text_in(ch, *pad, *context);
             let mut per = vec![];
             for enc in ENCODINGS {
                 if enc == "windows-1252" && cp1252_byte(ch).is_none() {
@@ -606,19 +637,19 @@ pub fn run(ctx: &mut Ctx) {
                 per.push((enc, outcome(&cli::run(&["check", path.to_str().unwrap()], &tmp, Duration::from_secs(30)))));
                 let _ = std::fs::remove_dir_all(&dir);
             }
-            (*ci, *pad, per)
+            (*ci, *pad, *context, per)
         })
         .collect();
-    for (ci, pad, per) in &bin_sweep_results {
+    for (ci, pad, context, per) in &bin_sweep_results {
         let base = &per[0].1;
         for (enc, o) in per {
             ctx.evaluations += 1;
             ctx.traces += 1;
             if o != base || o.crashed {
                 ctx.fail(
-                    &format!("size-sweep/binary-result-differs-from-utf8/{}/{}", enc, chars[*ci].1),
+                    &format!("size-sweep/binary-result-differs-from-utf8-or-crash/{}/{}/{}", enc, chars[*ci].1, SWEEP_CONTEXTS[*context]),
                     &format!("pad {}: `check` in utf8 gives {:?}, in {} gives {:?}", pad, base, enc, o),
-                    json!({"mode":"sweep","character":chars[*ci].0.to_string(),"pad":pad,"encoding":enc}),
+                    json!({"mode":"sweep","character":chars[*ci].0.to_string(),"pad":pad,"encoding":enc,"context":context}),
                 );
             }
         }
@@ -686,7 +717,7 @@ pub fn replay(case: &Value) -> Result<String, String> {
             let ch = case["character"].as_str().and_then(|c| c.chars().next()).ok_or("character")?;
             let pad = case["pad"].as_u64().ok_or("pad")? as usize;
             let enc = case["encoding"].as_str().ok_or("encoding")?;
-            let text = sweep_text(ch, pad);
+            let text = sweep_text_in(ch, pad, case["context"].as_u64().unwrap_or(0) as usize);
             std::fs::write(&path, encode(&text, "utf8")).unwrap();
             let base = observe_file(&path)?;
             std::fs::write(&path, encode(&text, enc)).unwrap();
